@@ -155,13 +155,13 @@ class GField:
 
     def __init__(self, seed, ncomp=1, nterms=5, nmax=2, pointgroup=None):
         rs = np.random.RandomState(seed)
-        nterms = max(nterms, 4)
-        self.n = rs.randint(-nmax, nmax + 1, size=(nterms, 3))
-        # the three unit vectors are always present (with generic phases): otherwise all n_z may happen to be
-        # even and k_z=0 / k_z=1/2 planes carry identical values - exact ties in the refinement criteria
-        self.n[0] = (1, 0, 0)
-        self.n[1] = (0, 1, 0)
-        self.n[2] = (0, 0, 1)
+        # a fixed set of low-order vectors with generic amplitudes and phases is always present (unit vectors,
+        # face and body diagonals, one low-symmetry vector): with only random vectors all n_z may happen to be even, or
+        # the odd part may cancel on the orbit of a special point - exact ties between inequivalent K-points
+        fixed = np.array([(1, 0, 0), (0, 1, 0), (0, 0, 1), (1, 1, 0), (0, 1, 1), (1, 0, 1), (1, -1, 0), (1, 2, 3)])
+        extra = rs.randint(-nmax, nmax + 1, size=(max(nterms - 3, 1), 3))
+        self.n = np.vstack([fixed, extra])
+        nterms = len(self.n)
         self.A = rs.uniform(0.3, 1.0, size=(ncomp, nterms))
         self.phi = rs.uniform(0, 2 * np.pi, size=(ncomp, nterms))
         self.c0 = rs.uniform(0.5, 1.5, size=ncomp)
